@@ -118,9 +118,26 @@ def aspaCheck (holdsAsn : Nat → Bool) (d : AspaDef) : Option AspaErr :=
   else if !(holdsAsn d.customer) then some (.notEntitled d.customer)
   else none
 
-/-- Body of the addition loop (aspa.rs:112-181).  Note `self.get(customer)`: the event is
-computed against the definitions *before* this update (`orig`), not against the running copy. -/
-def aspaAddStep (orig : AspaDefs) (holdsAsn : Nat → Bool) (acc : AspaDefs × List AspaEv)
+/-- Body of the addition loop (aspa.rs:112-186, after fix abeec4b3): the event is computed
+against the running copy as it is before this entry. -/
+def aspaAddStep (holdsAsn : Nat → Bool) (acc : AspaDefs × List AspaEv)
+    (d : AspaDef) : Except AspaErr (AspaDefs × List AspaEv) :=
+  match aspaCheck holdsAsn d with
+  | some e => .error e
+  | none =>
+    let all := acc.1.addOrReplace d
+    match acc.1.get? d.customer with
+    | none => .ok (all, acc.2 ++ [.added d])
+    | some existing =>
+      let upd : ProvUpdate :=
+        { added := d.providers.filter (fun p => !(existing.providers.contains p)),
+          removed := existing.providers.filter (fun p => !(d.providers.contains p)) }
+      if !upd.isEmpty then .ok (all, acc.2 ++ [.updated d.customer upd]) else .ok (all, acc.2)
+
+/-- COUNTER-MODEL – the addition loop of the pinned tree (before fix abeec4b3): the event is
+computed against the definitions *before* the update (`self.get(customer)`, here `orig`),
+not against the running copy. -/
+def aspaAddStepPinned (orig : AspaDefs) (holdsAsn : Nat → Bool) (acc : AspaDefs × List AspaEv)
     (d : AspaDef) : Except AspaErr (AspaDefs × List AspaEv) :=
   match aspaCheck holdsAsn d with
   | some e => .error e
@@ -146,7 +163,14 @@ def aspaProcessUpdates (s : AspaDefs) (holdsAsn : Nat → Bool) (u : AspaUpdates
     Except AspaErr (AspaDefs × List AspaEv) :=
   match foldlE aspaRemoveStep (s, []) u.remove with
   | .error e => .error e
-  | .ok acc => foldlE (aspaAddStep s holdsAsn) acc u.addOrReplace
+  | .ok acc => foldlE (aspaAddStep holdsAsn) acc u.addOrReplace
+
+/-- COUNTER-MODEL – `process_updates` of the pinned tree. -/
+def aspaProcessUpdatesPinned (s : AspaDefs) (holdsAsn : Nat → Bool) (u : AspaUpdates) :
+    Except AspaErr (AspaDefs × List AspaEv) :=
+  match foldlE aspaRemoveStep (s, []) u.remove with
+  | .error e => .error e
+  | .ok acc => foldlE (aspaAddStepPinned s holdsAsn) acc u.addOrReplace
 
 /-- The effect of the command on the configuration. -/
 def aspaCommand (s : AspaDefs) (holdsAsn : Nat → Bool) (u : AspaUpdates) : AspaDefs :=
